@@ -115,12 +115,11 @@ Theorem precedence_cli : forall has_toml sub p cli cv ftoml fjson opt,
   parser_of G.table sub = Some p ->
   convert_cli p cli = Ok cv ->
   dmem opt G.config_defaults = true ->
-  dmem s_self (select_file has_toml ftoml fjson) = false ->
   effective G.config_defaults G.table has_toml sub cli ftoml fjson opt =
     Ok (spec_effective (dget opt cv) (file_value has_toml ftoml fjson opt)
                        (builtin_default G.config_defaults G.table sub opt)).
 Proof.
-  intros has_toml sub p cli cv ftoml fjson opt Hp Hcv Hopt Hf.
+  intros has_toml sub p cli cv ftoml fjson opt Hp Hcv Hopt.
   apply (precedence G.config_defaults G.table has_toml sub p cli cv ftoml fjson opt); try assumption.
   - eapply table_names_ok; eauto.
   - apply config_keys_ok.
